@@ -148,13 +148,33 @@ class World:
             raise ValueError(st)
         return s if arg.get("ty", "p") == "s" else Path(s)
 
-    def spell_list(self, args, cwd_abs: str, share: str | None = None):
+    def spell_list(self, args, cwd_abs: str, share: str | None = None, kind: str | None = None):
         """share: a key under which the *same list object* (of unique Path objects) is handed to several calls of one run -
-        callers do reuse their argument lists; the calls must neither mutate them nor depend on earlier calls."""
+        callers do reuse their argument lists; the calls must neither mutate them nor depend on earlier calls.
+        kind: the kind of iterable handed over (the API takes Iterable[Path | str]): list (default), tuple, set, frozenset,
+        gen (generator, can be consumed once), iter, keys (dict view), deque."""
         if args is None:
             return None
         if isinstance(args, dict):
             return self.spell(args, cwd_abs)
+        if kind and kind != "list" and share is None:
+            items = [self.spell(a, cwd_abs) for a in args]
+            if kind == "tuple":
+                return tuple(items)
+            if kind == "set":
+                return set(items)
+            if kind == "frozenset":
+                return frozenset(items)
+            if kind == "gen":
+                return (x for x in items)
+            if kind == "iter":
+                return iter(items)
+            if kind == "keys":
+                return dict.fromkeys(items).keys()
+            if kind == "deque":
+                import collections
+                return collections.deque(items)
+            raise ValueError(kind)
         if share is not None:
             if share not in self.shared_args:
                 lst = []
@@ -193,13 +213,13 @@ class World:
             kw = {}
             if "allow_coll" in op:
                 kw["allow_root_namespace_name_collision"] = bool(op["allow_coll"])
-            args = (self.spell(op["root"], cwd_abs), self.spell_list(op.get("lookups"), cwd_abs, op.get("share_lookups")), handler,
+            args = (self.spell(op["root"], cwd_abs), self.spell_list(op.get("lookups"), cwd_abs, op.get("share_lookups"), op.get("lk_kind")), handler,
                     bool(op.get("allow_unreg", False)))
             fn = pydsdl.read_namespace
         elif op["op"] == "rf":
             kw = {}
-            args = (self.spell_list(op["files"], cwd_abs), self.spell_list(op.get("roots"), cwd_abs, op.get("share_roots")),
-                    self.spell_list(op.get("lookups"), cwd_abs, op.get("share_lookups")), handler, bool(op.get("allow_unreg", False)))
+            args = (self.spell_list(op["files"], cwd_abs, None, op.get("files_kind")), self.spell_list(op.get("roots"), cwd_abs, op.get("share_roots"), op.get("roots_kind")),
+                    self.spell_list(op.get("lookups"), cwd_abs, op.get("share_lookups"), op.get("lk_kind")), handler, bool(op.get("allow_unreg", False)))
             fn = pydsdl.read_files
         else:
             raise ValueError(op["op"])
